@@ -825,6 +825,13 @@ class Models(object):
                     if name == "startswith" and isinstance(ps[0], str) and len(ps[0]) >= len(o):
                         fs.append(ps[0].startswith(o))
                         continue
+                    if name == "startswith" and not isinstance(ps[0], str):
+                        kp = E.known_prefix(ps[0])
+                        if kp is not None:
+                            n_ = min(len(kp), len(o))
+                            if kp[:n_] != o[:n_]:
+                                fs.append(False)     # the known literal prefix of the first piece already disagrees
+                                continue
                 fs.append(z3.PrefixOf(ot, t) if name == "startswith" else z3.SuffixOf(ot, t))
             return E.decide(sym.Or(*fs))
         if name == "lower":
